@@ -8,7 +8,8 @@
  * Modules: index 0 = S (subscriber), 1 = X, 2 = Y (second transitioning module, second subscriber, or the driver of the
  * blocking-mode scenarios).  The scenario is the per-job macro SCRIPT, a sequence of the step macros below (the call
  * order and everything that changes the heap shape is a per-job constant); in blocking mode (BLK) SCRIPT ends with BLOCK
- * and BSCRIPT lists what the driver's handler does in its k-th invocation (one per loop round).
+ * and BSCRIPT lists what the driver's handler does in its k-th invocation (one per loop round); CBSTART / CBSTOP are
+ * steps performed from inside X's on_start / on_stop callback (nested transitions).
  * Next to the real calls every step updates a ghost model (all concrete): state of each module, subscriptions, and per
  * subscriber w the number req[w][topic][sender] of notifications the property demands and perf[topic][sender] of
  * occurrences performed at all.  Oracle at the end, from the recording handler's log of every subscriber:
@@ -76,7 +77,7 @@ static void g_started(int m) {
 }
 static void g_loop_start(void) {
     _Bool was_idle[VF_NMOD];
-    for (int w = 0; w < VF_NMOD; w++) was_idle[w] = g_st[w] == M_MOD_IDLE;
+    for (int w = 0; w < VF_NMOD; w++) was_idle[w] = g_st[w] == M_MOD_IDLE && vf_eval_ret[w];   /* on_eval false: stays IDLE */
     /* IDLE modules are evaluated and started (in the map's order, which the property does not fix): modules that were
      * RUNNING/PAUSED before must hear about each; what a module started in the same pass hears is left open */
     for (int m = 0; m < VF_NMOD; m++) if (was_idle[m]) {
@@ -101,7 +102,7 @@ static void g_loop_stop(void) {
 static void g_round_effects(_Bool any) {
     for (int m = 0; m < VF_NMOD; m++) if (g_pill[m] && g_st[m] == M_MOD_RUNNING) { g_gone(m, M_MOD_STOPPED); occ(T_MX, m); }
     if (g_fired) { g_fired = 0; occ(T_TK, CTXW); }
-    if (any) for (int m = 0; m < VF_NMOD; m++) if (g_st[m] == M_MOD_IDLE) g_started(m);
+    if (any) for (int m = 0; m < VF_NMOD; m++) if (g_st[m] == M_MOD_IDLE && vf_eval_ret[m]) g_started(m);
 }
 static void do_dispatch(void) {
     if (!g_loop) {
@@ -130,6 +131,7 @@ static _Bool unread(void) {
 #define REG(m)        { vf_mod(m, 0, NULL); g_st[m] = M_MOD_IDLE; }
 #define REGF(m)       { vf_mod(m, (m_mod_flags)(XFL), NULL); g_st[m] = M_MOD_IDLE; }   /* flags: per-job constant (a symbolic flags word forks the heap shape in m_mod_register / module_dtor) */
 #define REFUSE(m)     { vf_start_ret[m] = false; }
+#define NOEVAL(m)     { vf_eval_ret[m] = false; }     /* on_eval says no: the loop does not start the module by itself */
 #define SUB(m, t)     { r_ = m_mod_ps_subscribe(vf_mods[m], tn[t], 0, NULL); VF_CHECK(r_ == 0, "subscription accepted"); g_sub[m][t] = 1; g_eversub[m] = 1; }
 #define UNSUB(m, t)   { r_ = m_mod_ps_unsubscribe(vf_mods[m], tn[t]); VF_CHECK(r_ == 0, "unsubscription accepted"); g_sub[m][t] = 0; }
 #define START(m)      { r_ = m_mod_start(vf_mods[m]); VF_CHECK(r_ == 0, "start accepted"); g_started(m); }
@@ -140,6 +142,7 @@ static _Bool unread(void) {
 #define PILL(f, m)    { r_ = m_mod_ps_poisonpill(vf_mods[f], vf_mods[m]); VF_CHECK(r_ == 0, "poison pill accepted"); g_pill[m] = 1; }
 #define SETTICK       { g_tick_ns = nondet_u64(); VF_ASSUME(g_tick_ns != 0); r_ = m_ctx_set_tick(g_tick_ns); VF_CHECK(r_ == 0, "tick configured"); g_tick = 1; }
 #define SETTICKC(ns)  { g_tick_ns = (ns); r_ = m_ctx_set_tick(g_tick_ns); VF_CHECK(r_ == 0, "tick configured"); g_tick = 1; }
+#define TICKOFF       { r_ = m_ctx_set_tick(0); VF_CHECK(r_ == 0, "tick disabled"); g_tick = 0; g_fired = 0; VF_CHECK(vf_find_kind(VF_TIMER, 0) < 0, "no timer left armed once the tick is disabled"); }
 #define FIRE          { vf_fire_timers(); if (g_loop && g_tick) g_fired = 1; }
 #define LOOP          { VF_ASSUME(!g_loop); do_dispatch(); }
 #define DISP          { do_dispatch(); }
@@ -155,6 +158,13 @@ static _Bool unread(void) {
 
 static void my_action(int who, int kind, m_mod_t *m, const m_queue_t *q) {
     (void)m; (void)q;
+    /* nesting: transitions performed from inside X's on_start / on_stop (per-job CBSTART / CBSTOP) */
+#ifdef CBSTART
+    if (who == X && kind == VF_CB_START) { CBSTART }
+#endif
+#ifdef CBSTOP
+    if (who == X && kind == VF_CB_STOP) { CBSTOP }
+#endif
 #if BLK
     if (who == Y && kind == VF_CB_EVT && g_loop) {
         switch (g_round++) {
@@ -184,6 +194,14 @@ int vf_main(void) {
     SCRIPT
 
     VF_CHECK(g_total <= VF_PIPE_MAX && g_total <= VF_LOGN, "harness: the script stays within mailbox and log capacity");
+#if defined(VF_NATIVE) && defined(VF_DEBUG)
+    for (int w = 0; w < VF_NMOD; w++) {
+        fprintf(stderr, "mod %d st=%d void=%d nlog=%d:", w, g_st[w], g_void[w], vf_nlog[w]);
+        for (int k = 0; k < vf_nlog[w] && k < VF_LOGN; k++) fprintf(stderr, " [%s from %d sys=%d]", vf_log[w][k].topic ? vf_log[w][k].topic : "-", who_is(vf_log[w][k].sender), vf_log[w][k].system);
+        fprintf(stderr, "\n");
+        for (int t = 0; t < NT; t++) for (int s = 0; s <= VF_NMOD; s++) if (g_perf[t][s]) fprintf(stderr, "   %s sender %d: performed %d, demanded for this module %d\n", tn[t], s, g_perf[t][s], g_req[w][t][s]);
+    }
+#endif
     for (int w = 0; w < VF_NMOD; w++) {
         if (!g_eversub[w]) continue;
         int got[NT][VF_NMOD + 1] = { { 0 } };
